@@ -267,4 +267,149 @@ theorem refReshape_spec {targ : List Int} {s t : Shape} (h : refReshape targ s =
       exact Nat.div_mul_cancel (Nat.dvd_of_mod_eq_zero hmod)
     · simp at h
 
+/-! ### tile -/
+
+theorem length_tileRev : ∀ (a r : List Nat), (tileRev a r).length = max a.length r.length
+  | [], r => by simp [tileRev]
+  | _ :: _, [] => by simp [tileRev]
+  | _ :: as, _ :: rs => by simp [tileRev, length_tileRev as rs]
+
+theorem length_refTile (reps s : List Nat) : (refTile reps s).length = max s.length reps.length := by
+  simp [refTile, length_tileRev]
+
+theorem tileLenK_sound {a b : LenK} {n m : Nat} (ha : a.γ n) (hb : b.γ m) : (tileLenK a b).γ (max n m) := by
+  cases a <;> cases b <;> simp only [tileLenK, LenK.γ] at * <;> omega
+
+/-! ### transpose -/
+
+theorem gather_length : ∀ {p : List Nat} {s t : Shape}, gather p s = some t → t.length = p.length
+  | [], _, t, h => by simp [gather] at h; subst h; rfl
+  | a :: as, s, t, h => by
+      simp only [gather] at h
+      split at h
+      · rename_i x r hx hr
+        simp only [Option.some.injEq] at h; subst h
+        simp [gather_length hr]
+      · simp at h
+
+theorem gather_eq_map : ∀ {p : List Nat} {s t : Shape}, gather p s = some t → t = p.map (fun a => s[a]?.getD 0)
+  | [], _, t, h => by simp [gather] at h; subst h; rfl
+  | a :: as, s, t, h => by
+      simp only [gather] at h
+      split at h
+      · rename_i x r hx hr
+        simp only [Option.some.injEq] at h; subst h
+        simp [hx, gather_eq_map hr]
+      · simp at h
+
+theorem gather_leAll : ∀ {p : List Nat} {s b t : Shape}, LeAll s b → gather p s = some t →
+    ∃ t', gather p b = some t' ∧ LeAll t t'
+  | [], _, _, t, _, h => by simp [gather] at h; subst h; exact ⟨[], by simp [gather], trivial⟩
+  | a :: as, s, b, t, hl, h => by
+      simp only [gather] at h
+      split at h
+      · rename_i x r hx hr
+        simp only [Option.some.injEq] at h; subst h
+        obtain ⟨y, hy, hxy⟩ := hl.getElem? a hx
+        obtain ⟨r', hr', hrr⟩ := gather_leAll (p := as) hl hr
+        exact ⟨y :: r', by simp [gather, hy, hr'], hxy, hrr⟩
+      · simp at h
+
+theorem map_getD_range (s : List Nat) : (List.range s.length).map (fun a => s[a]?.getD 0) = s := by
+  apply List.ext_getElem
+  · simp
+  · intro i h1 h2
+    simp at h1 h2 ⊢
+    simp [h2]
+
+theorem gather_prod {p : List Nat} {s t : Shape} (hp : p.Perm (List.range s.length)) (h : gather p s = some t) :
+    prod t = prod s := by
+  rw [gather_eq_map h]
+  have := prod_perm (hp.map (fun a => s[a]?.getD 0))
+  rw [map_getD_range] at this
+  exact this
+
+/-! ### expand_dims / reduce -/
+
+theorem insertOne_spec {l t : Shape} {a : Nat} (h : insertOne l a = some t) : t.length = l.length + 1 ∧ prod t = prod l := by
+  unfold insertOne at h
+  split at h
+  · rename_i ha
+    simp only [Option.some.injEq] at h; subst h
+    exact ⟨by simp [List.length_insertIdx, ha], prod_insertIdx_one l a⟩
+  · simp at h
+
+theorem foldlM_insertOne_spec : ∀ (axes : List Nat) {s t : Shape}, axes.foldlM insertOne s = some t →
+    t.length = s.length + axes.length ∧ prod t = prod s
+  | [], s, t, h => by simp at h; subst h; simp
+  | a :: as, s, t, h => by
+      simp only [List.foldlM_cons] at h
+      cases h1 : insertOne s a with
+      | none => simp [h1] at h
+      | some u =>
+        simp only [h1] at h
+        obtain ⟨hl, hp⟩ := insertOne_spec h1
+        obtain ⟨hl2, hp2⟩ := foldlM_insertOne_spec as h
+        exact ⟨by simp [hl2, hl]; omega, hp2.trans hp⟩
+
+theorem refExpandDims_spec {axes : List Nat} {s t : Shape} (h : refExpandDims axes s = some t) :
+    t.length = s.length + axes.length ∧ prod t = prod s := by
+  unfold refExpandDims at h
+  split at h
+  · have := foldlM_insertOne_spec _ h
+    rwa [length_sortAsc] at this
+  · simp at h
+
+theorem eraseOne_spec {kd : Bool} {l t : Shape} {a : Nat} (hpos : Pos l) (h : eraseOne kd l a = some t) :
+    (if kd then t.length = l.length else t.length + 1 = l.length) ∧ prod t ≤ prod l ∧ Pos t := by
+  unfold eraseOne at h
+  split at h
+  · rename_i ha
+    simp only [Option.some.injEq] at h; subst h
+    cases kd with
+    | true => exact ⟨by simp, prod_set_one_le l a hpos, pos_set_one l a hpos⟩
+    | false =>
+      refine ⟨?_, prod_eraseIdx_le l a hpos, pos_eraseIdx l a hpos⟩
+      simp [List.length_eraseIdx, ha]; omega
+  · simp at h
+
+theorem foldlM_eraseOne_spec (kd : Bool) : ∀ (axes : List Nat) {s t : Shape}, Pos s → axes.foldlM (eraseOne kd) s = some t →
+    (if kd then t.length = s.length else t.length + axes.length = s.length) ∧ prod t ≤ prod s
+  | [], s, t, _, h => by simp at h; subst h; cases kd <;> simp
+  | a :: as, s, t, hpos, h => by
+      simp only [List.foldlM_cons] at h
+      cases h1 : eraseOne kd s a with
+      | none => simp [h1] at h
+      | some u =>
+        simp only [h1] at h
+        obtain ⟨hl, hp, hpu⟩ := eraseOne_spec hpos h1
+        obtain ⟨hl2, hp2⟩ := foldlM_eraseOne_spec kd as hpu h
+        refine ⟨?_, Nat.le_trans hp2 hp⟩
+        cases kd with
+        | true => simp at hl hl2 ⊢; omega
+        | false => simp at hl hl2 ⊢; omega
+
+theorem refReduce_spec {axes : List Nat} {kd : Bool} {s t : Shape} (hpos : Pos s) (h : refReduce axes kd s = some t) :
+    (if kd then t.length = s.length else t.length + axes.length = s.length) ∧ prod t ≤ prod s := by
+  unfold refReduce at h
+  split at h
+  · have := foldlM_eraseOne_spec kd _ hpos h
+    simpa [length_sortAsc] using this
+  · simp at h
+
+theorem lenK_add_sound {k : LenK} {n : Nat} (m : Nat) (h : k.γ n) : (k.add m).γ (n + m) := by
+  cases k <;> simp only [LenK.add, LenK.γ] at * <;> omega
+
+theorem lenK_sub_sound {k k' : LenK} {n m r : Nat} (h : k.γ n) (hs : k.sub m = some k') (hr : r + m = n) : k'.γ r := by
+  cases k with
+  | fixed a =>
+    simp only [LenK.sub] at hs
+    split at hs <;> simp at hs
+    subst hs; simp only [LenK.γ] at *; omega
+  | bounded a =>
+    simp only [LenK.sub] at hs
+    split at hs <;> simp at hs
+    subst hs; simp only [LenK.γ] at *; omega
+  | dyn => simp only [LenK.sub, Option.some.injEq] at hs; subst hs; trivial
+
 end NmVerif.Static
